@@ -45,7 +45,7 @@ func c12True(op string, x, y ref.Val, digits int) (neg bool, v *big.Float, t flo
 		neg = l.Sign() < 0
 		return neg, l.Abs(l), 0, true
 	case "Pow":
-		if x.Form != ref.Finite || y.Form != ref.Finite || x.Coef.Sign() == 0 || y.Coef.Sign() == 0 || abs(y.Exp) > 60 || y.Adj() > 7 {
+		if x.Form != ref.Finite || y.Form != ref.Finite || x.Coef.Sign() == 0 || y.Coef.Sign() == 0 || abs(y.Exp) > 60 || y.Adj() > 40 {
 			return false, nil, 0, false
 		}
 		yr := ref.Rat(y)
@@ -508,6 +508,31 @@ func c12Run(e *core.Env) {
 					continue
 				}
 				run("Pow", x, &pys[j], ctxFor(p, i+j))
+			}
+		}
+	}
+	// integral exponents beyond 64 bits (and next to the 63/64-bit boundaries) with bases so close to one that the
+	// power is still an ordinary number, and with bases whose power must over- or underflow
+	{
+		var hx, hy []Operand
+		for _, s := range []DecJ{{Coef: "10000000000000000000000001", Exp: -25}, {Coef: "9999999999999999999999999", Exp: -25}, {Coef: "1000000000000000000000000000001", Exp: -30},
+			{Coef: "2"}, {Coef: "5", Exp: -1}, {Coef: "1"}, {Coef: "1", Neg: true}, {Coef: "10"}} {
+			hx = append(hx, s.Op())
+		}
+		for _, b := range []*big.Int{pow2(64), new(big.Int).Add(pow2(64), big.NewInt(1)), new(big.Int).Sub(pow2(64), big.NewInt(1)), pow2(63), new(big.Int).Add(pow2(65), big.NewInt(3)), pow2(127)} {
+			hy = append(hy, FinBig(b, 0, false), FinBig(b, 0, true))
+		}
+		hy = append(hy, Fin(1, 20, false), Fin(1, 20, true), Fin(3, 19, false))
+		for i := range hx {
+			for j := range hy {
+				idx++
+				if !e.Mine(idx) {
+					continue
+				}
+				e.State()
+				for _, p := range []uint32{10, 16} {
+					run("Pow", hx[i], &hy[j], MkCtx(p, -6143, 6144, apd.RoundHalfEven, 0))
+				}
 			}
 		}
 	}
